@@ -225,7 +225,8 @@ def float_monitors(chk, tier):
         n = int(rs.choice([2, 3, 4]))
         nd = int(rs.choice([1, 2, 4]))
         deph = (k % 3 == 2)
-        c = {"kind": "float", "n": n, "ndense": nd, "deph": deph, "k": k}
+        ops_form = (k % 4 in (1, 2))          # the relaxation tensor held as operators (the LindbladForm default) or as a tensor
+        c = {"kind": "float", "n": n, "ndense": nd, "deph": deph, "ops_form": ops_form, "k": k}
         try:
             with contextlib.redirect_stdout(io.StringIO()):
                 Hm = rs.randn(n, n) * 0.03
@@ -241,7 +242,7 @@ def float_monitors(chk, tier):
                 def build(ndv):
                     ham = qr.Hamiltonian(data=Hm.copy())
                     sbi = SystemBathInteraction(sys_operators=[Operator(data=K_.copy()) for K_ in ops], rates=rates)
-                    LF = LindbladForm(ham, sbi, as_operators=False)
+                    LF = LindbladForm(ham, sbi, as_operators=ops_form)
                     pd = None
                     if deph:
                         g = np.abs(rs2.randn(n, n)) * 0.02
@@ -265,7 +266,7 @@ def float_monitors(chk, tier):
             for i in range(data.shape[0]):
                 if np.max(np.abs(np.tensordot(data[i], rho) - direct[i])) > 1e-10:
                     chk.violation("apply_vs_propagation:float", "U(t_%d) rho differs from direct propagation by %g (n=%d ndense=%d dephasing=%s)"
-                                  % (i, np.max(np.abs(np.tensordot(data[i], rho) - direct[i])), n, nd, deph), "monitor", c)
+                                  % (i, np.max(np.abs(np.tensordot(data[i], rho) - direct[i])), n, nd, "%s, %s form" % (deph, "operator" if ops_form else "tensor")), "monitor", c)
                     break
             if not deph:
                 # refinement: 8 times finer dense step; both within the truncation bound of the exact exponential
@@ -283,7 +284,11 @@ def float_monitors(chk, tier):
                     chk.violation("reuse_vs_fresh:float", "refining the dense step on an object that has already been calculated (set_dense_dt(%d), calculate()) "
                                   "differs from a fresh object with that setting by %g" % (nd * 8, float(np.max(np.abs(inplace - fine)))), "monitor", c)
                 G = np.zeros((n * n, n * n), dtype=complex)
-                Rt = np.array(LF.data)
+                if ops_form:
+                    sbit = SystemBathInteraction(sys_operators=[Operator(data=K_.copy()) for K_ in ops], rates=rates)
+                    Rt = np.array(LindbladForm(qr.Hamiltonian(data=Hm.copy()), sbit, as_operators=False).data)
+                else:
+                    Rt = np.array(LF.data)
                 I = np.eye(n)
                 for a in range(n):
                     for b in range(n):
